@@ -74,6 +74,7 @@ func init() {
 		"strings.Repeat":           mRepeat,
 		"path/filepath.Join":      mJoinGeneric,
 		"sort.Slice":              mSortSlice,
+		"sort.SliceStable":        mSortSliceStable,
 		"sort.Strings":            mSortStrings,
 
 		ergoPath + ".zzAssume":  mAssume,
@@ -772,6 +773,42 @@ func mSortSlice(ex *Exec, c *callCtx) Value {
 			r := ex.callValue(less, []Value{IntV{BVC(int64(k+off), 64), true}, IntV{BVC(int64(j+off), 64), true}}, gg, c.pos, sig)
 			return r.(BoolV).T
 		})
+		delete(ex.physIndex, st.Arr)
+	}
+	return nil
+}
+
+// sort.SliceStable: equal elements keep their order. Dense slices get a bubble sort (adjacent
+// compare-exchange, which is stable); sparse slices (cells with presence guards) fall back to the
+// exchange network of sort.Slice, where the order of equal elements is not modelled.
+func mSortSliceStable(ex *Exec, c *callCtx) Value {
+	x := c.args[0].(RefV)
+	less := c.args[1]
+	if len(x.Alts) == 0 {
+		return nil
+	}
+	it := x.Alts[0].Tgt.(IfaceT)
+	sl := it.V.(RefV)
+	if isSparse(sl) {
+		ex.notes = append(ex.notes, "sort.SliceStable on a sparse slice modelled as sort.Slice (stability not modelled)")
+		return mSortSlice(ex, c)
+	}
+	sig := types.NewSignatureType(nil, nil, nil, types.NewTuple(types.NewVar(0, nil, "i", types.Typ[types.Int]), types.NewVar(0, nil, "j", types.Typ[types.Int])), types.NewTuple(types.NewVar(0, nil, "", types.Typ[types.Bool])), false)
+	for _, a := range sl.Alts {
+		st := a.Tgt.(SliceT)
+		n := st.phys()
+		g := And(c.guard, a.C)
+		ex.physIndex[st.Arr] = true
+		for pass := 0; pass < n; pass++ {
+			for i := 0; i+1 < n; i++ {
+				gg := And(g, st.presAt(i), st.presAt(i+1))
+				if gg.IsFalse() {
+					continue
+				}
+				r := ex.callValue(less, []Value{IntV{BVC(int64(i+1), 64), true}, IntV{BVC(int64(i), 64), true}}, gg, c.pos, sig)
+				ex.swapCells(st.Arr, st.Off+i, st.Off+i+1, And(gg, r.(BoolV).T))
+			}
+		}
 		delete(ex.physIndex, st.Arr)
 	}
 	return nil
